@@ -45,7 +45,10 @@ type module struct {
 	IsValid  func(r interface{}) bool
 	// Probe drives traffic on res and returns what it observed plus what the enforced list
 	// (IDs, in order) should have produced.
-	Probe     func(res string, enforced []string) (observed, expected string)
+	Probe func(res string, enforced []string) (observed, expected string)
+	// Touch (optional) is part of every operation: traffic that makes the module build per-resource run-time
+	// state from the rules in force (it must be replayed with the history, unlike the probe)
+	Touch     func(res string)
 	Resources []string
 	OneRule   bool // at most one rule per resource (outlier): later entries of a list replace earlier ones
 }
@@ -177,6 +180,11 @@ func (s *scen) Apply(i int) (obs string, viol string) {
 		case 3:
 			s.model[o.res] = nil
 			s.last = nil
+		}
+	}
+	if s.m.Touch != nil {
+		for _, r := range s.m.Resources {
+			s.m.Touch(r)
 		}
 	}
 	// getters = model (a getter that panics on what a load left behind is reported, not a harness crash)
